@@ -6,9 +6,10 @@ import DEngine.Model.KV
                                     lock has been released (end of PHASE 3) and `update_last_applied`
                                     (PHASE 4) has not run yet.  `scan_prefix` (one step: data read lock +
                                     `last_applied_index.load`) can run in between on another thread.
-  * `rocksIter` / revision read   — `RocksDBStateMachine::scan_prefix` split between the end of the iteration
-                                    and `last_applied_index.load`.  `apply_chunk` (`write_wbwi` then
-                                    `update_last_applied`) can run in between on another thread.
+  * revision read / `rocksIter`   — `RocksDBStateMachine::scan_prefix` split between `last_applied_index.load`
+                                    (first, since the F24 fix) and the creation of the iterator.  `apply_chunk`
+                                    (`write_wbwi` then `update_last_applied`) can run in between on another
+                                    thread.  `rstepOld` keeps the rule before the fix (iterate, then load).
   * `fileGapScan` / `rocksGapScan`— exactly those two interleavings, as driven by the harness through the
                                     guarded callbacks `verif_set_file_apply_gap_callback` /
                                     `verif_set_rocks_scan_gap_callback`.
@@ -58,14 +59,13 @@ def rocksSetLa (st : RocksSt) (chunk : List Entry) : RocksSt :=
   | some (i, t) => { st with laIndex := i, laTerm := t }
   | none => st
 
-/-- `chunk` is applied between the iteration and the revision read of the scan.  With the empty prefix the
-    real function returns before the gap (revision read first), the apply happens afterwards. -/
+/-- `chunk` is applied between the revision load and the iteration of the scan (the gap of the current code).
+    With the empty prefix the real function returns before the gap, the apply happens afterwards. -/
 def rocksGapScan (st : RocksSt) (p : Bytes) (chunk : List Entry) :
     Option (RocksSt × List Bool × (List (Key × Val) × Nat)) :=
-  let es := rocksIter st p
   match rocksApplyChunk st chunk with
   | none => none
-  | some (st', fl) => some (st', fl, (es, if p.isEmpty then st.laIndex else st'.laIndex))
+  | some (st', fl) => some (st', fl, (if p.isEmpty then [] else rocksIter st' p, st.laIndex))
 
 /-! ## general interleaving model: any schedule of apply steps and scan steps -/
 
@@ -74,8 +74,8 @@ def rocksGapScan (st : RocksSt) (p : Bytes) (chunk : List Entry) :
 inductive Ev where
   | applyData (chunk : List Entry)  -- apply_chunk up to the point where the data is visible
   | applyLa                         -- `update_last_applied` of the chunk in flight
-  | scanIter (p : Bytes)            -- RocksDB: the iteration of a scan;  File: the whole (lock-protected) scan
-  | scanRev                         -- RocksDB: the revision read of the scan in flight
+  | scanBegin (p : Bytes)           -- first read of a scan (RocksDB: revision load; File: the whole lock-protected scan)
+  | scanEnd                         -- second read of the scan in flight (RocksDB: the iteration)
 deriving Repr
 
 /-- A completed scan with ghost versions: how many chunks the data it saw contained (`dataVer`) and how many
@@ -91,7 +91,8 @@ deriving Repr
 structure RSys where
   st : RocksSt
   inflight : Option (List Entry) := none
-  scan : Option (Bytes × List (Key × Val) × Nat) := none
+  /-- scan in flight: (prefix, revision already loaded, ghost `laVer` at that load) -/
+  scan : Option (Bytes × Nat × Nat) := none
   dataVer : Nat := 0
   laVer : Nat := 0
   /-- ghost: the states a purely sequential execution goes through (after 0, 1, 2, … chunks) -/
@@ -102,7 +103,8 @@ def RSys.init (st : RocksSt) : RSys := { st := st, seq := [st] }
 
 def lastOr {α : Type} (l : List α) (d : α) : α := l.getLast?.getD d
 
-/-- One step of the RocksDB engine under concurrency; `none` = step not enabled (or the ordering panic). -/
+/-- One step of the RocksDB engine under concurrency (current code: revision load, then iteration);
+    `none` = step not enabled (or the ordering panic). -/
 def rstep (s : RSys) : Ev → Option RSys
   | .applyData chunk =>
     if s.inflight.isSome then none else
@@ -114,10 +116,38 @@ def rstep (s : RSys) : Ev → Option RSys
     match s.inflight with
     | none => none
     | some chunk => some { s with st := rocksSetLa s.st chunk, inflight := none, laVer := s.laVer + 1 }
-  | .scanIter p =>
+  | .scanBegin p =>
+    if s.scan.isSome || p.isEmpty then none
+    else some { s with scan := some (p, s.st.laIndex, s.laVer) }
+  | .scanEnd =>
+    match s.scan with
+    | none => none
+    | some (p, rev, l) =>
+      some { s with scan := none, done := s.done ++ [⟨p, rocksIter s.st p, rev, s.dataVer, l⟩] }
+
+/-- The rule BEFORE the F24 fix (iterate first, load the revision afterwards), without ghost sequence. -/
+structure ROld where
+  st : RocksSt
+  inflight : Option (List Entry) := none
+  scan : Option (Bytes × List (Key × Val) × Nat) := none
+  dataVer : Nat := 0
+  laVer : Nat := 0
+  done : List ScanObs := []
+
+def rstepOld (s : ROld) : Ev → Option ROld
+  | .applyData chunk =>
+    if s.inflight.isSome then none else
+    match rocksApplyWrite s.st chunk with
+    | some (st', _) => some { s with st := st', inflight := some chunk, dataVer := s.dataVer + 1 }
+    | none => none
+  | .applyLa =>
+    match s.inflight with
+    | none => none
+    | some chunk => some { s with st := rocksSetLa s.st chunk, inflight := none, laVer := s.laVer + 1 }
+  | .scanBegin p =>
     if s.scan.isSome || p.isEmpty then none
     else some { s with scan := some (p, rocksIter s.st p, s.dataVer) }
-  | .scanRev =>
+  | .scanEnd =>
     match s.scan with
     | none => none
     | some (p, es, d) =>
@@ -145,23 +175,15 @@ def fstep (s : FSys) : Ev → Option FSys
     match s.inflight with
     | none => none
     | some chunk => some { s with st := fileSetLa s.st chunk, inflight := none, laVer := s.laVer + 1 }
-  | .scanIter p =>
+  | .scanBegin p =>
     some { s with done := s.done ++ [⟨p, (fileScan s.st p).1, (fileScan s.st p).2, s.dataVer, s.laVer⟩] }
-  | .scanRev => none
+  | .scanEnd => none
 
 def runSched {σ : Type} (step : σ → Ev → Option σ) : σ → List Ev → Option σ
   | s, [] => some s
   | s, e :: es => match step s e with
     | none => none
     | some s' => runSched step s' es
-
-/-- The exact trigger of F24: `update_last_applied` runs while a scan is between its two reads. -/
-def laInsideScanGap (s : RSys) : Ev → Bool
-  | .applyLa => s.scan.isSome
-  | _ => false
-
-/-- RocksDB steps with that trigger excluded. -/
-def rstepNoGap (s : RSys) (e : Ev) : Option RSys := if laInsideScanGap s e then none else rstep s e
 
 /-! ## client side: resynchronisation from a scan + watch events -/
 
